@@ -46,7 +46,9 @@ fn err_matches(real: &Error, r: &RefErr) -> bool {
 
 fn check_text(prop: &str, text: &str, rep: &mut Report) {
     let chars: Vec<char> = text.chars().collect();
-    let opt_list: &[RefOpts] = if prop == "C12" || prop == "C03" { &ALL_OPTS } else { &ALL_OPTS[..1] };
+    // (C02: the decoded value is the document's content under every option record as well --
+    // the lenient options only concern surrogate escapes)
+    let opt_list: &[RefOpts] = if prop == "C12" || prop == "C03" || prop == "C02" { &ALL_OPTS } else { &ALL_OPTS[..1] };
     let strict_ref = ref_parse(&chars, ALL_OPTS[0]);
     for &o in opt_list {
         let r = ref_parse(&chars, o);
@@ -163,6 +165,9 @@ fn deep_doc(shape: &str, depth: usize) -> (String, bool) {
         "objects" => { for _ in 0..depth { s.push_str("{\"a\":"); } s.push('0'); for _ in 0..depth { s.push('}'); } (s, true) }
         "member-array" => { s.push_str("{\"k\":"); for _ in 0..depth { s.push('['); } for _ in 0..depth { s.push(']'); } s.push_str(",\"z\":1}"); (s, true) }
         "mixed" => { for _ in 0..depth / 2 { s.push_str("[{\"a\":"); } s.push_str("null"); for _ in 0..depth / 2 { s.push_str("}]"); } (s, true) }
+        // long runs of insignificant whitespace in front of values: the stack must not grow with them either
+        "ws-start" => { for _ in 0..depth { s.push_str("\r\n"); } s.push_str("{\"a\":"); for _ in 0..depth { s.push_str("\t "); } s.push_str("null}"); (s, true) }
+        "ws-items" => { s.push_str("[1,"); for _ in 0..depth { s.push(' '); } s.push_str("2 ,"); for _ in 0..depth { s.push('\n'); } s.push_str("[]]"); (s, true) }
         "unclosed-arrays" => { for _ in 0..depth { s.push('['); } (s, false) }
         _ => { for _ in 0..depth { s.push_str("{\"k\":"); } s.push_str("null"); (s, false) }
     }
@@ -175,7 +180,7 @@ pub fn deep_child(shape: &str, depth: usize) -> i32 {
         let (doc, valid) = deep_doc(&shape, depth);
         let r = Value::parse_str(&doc);
         let ok = match &r {
-            Ok((v, cm)) => valid && cm.len() >= depth && v.traverse().count() == cm.len(),
+            Ok((v, cm)) => valid && (cm.len() >= depth || shape.starts_with("ws-")) && v.traverse().count() == cm.len(),
             Err(_) => !valid,
         };
         // the deep value is leaked: dropping it recurses, which is not part of parsing
@@ -189,7 +194,7 @@ fn deep_nesting(rep: &mut Report, depth: usize) {
     // C03: nesting depth does not grow the stack.  Each shape runs in a child process because a
     // stack overflow aborts the process.
     let exe = std::env::current_exe().expect("current_exe");
-    for shape in ["arrays", "objects", "member-array", "mixed", "unclosed-arrays", "unclosed-objects"] {
+    for shape in ["arrays", "objects", "member-array", "mixed", "unclosed-arrays", "unclosed-objects", "ws-start", "ws-items"] {
         let st = std::process::Command::new(&exe).args(["deep", shape, &depth.to_string()]).status();
         rep.eval(true, crate::fnv(shape.as_bytes()) ^ depth as u64);
         match st {
@@ -251,6 +256,12 @@ pub fn run(prop: &str, thorough: bool, seed: u64, rep: &mut Report) {
             if done { break; }
         }
         for doc in [&b"\xEF\xBB\xBF1"[..], b"1\xC0\xA0", b"\"\xED\xA0\x80\"", b"\"\xF4\x90\x80\x80\"", b"[\"\xE2\x82\xAC\", 1]", b"{\"\xC3\xA9\":\"\xF0\x9F\x98\x80\"}"] { check_bytes(prop, doc, rep); }
+        // every boundary of the UTF-8 length classes as a raw character inside a document: the
+        // byte-slice and string entry points must agree (verdict, code map, error)
+        for cp in [0x7Fu32, 0x80, 0x7FF, 0x800, 0xD7FF, 0xE000, 0xEFFF, 0xF000, 0xFE0F, 0xFEFF, 0xFFFD, 0xFFFF, 0x10000, 0x10FFFF] {
+            let c = char::from_u32(cp).unwrap();
+            for doc in [format!("[\"{}\",true]", c), format!("{{\"{}k\": [\"a{}\"] }}", c, c), format!("\"{}\" x", c)] { check_bytes(prop, doc.as_bytes(), rep); }
+        }
     }
     if prop == "C02" {
         // objects with duplicated keys: every assignment of up to N members to the keys a/b/c,
@@ -274,6 +285,27 @@ pub fn run(prop: &str, thorough: bool, seed: u64, rep: &mut Report) {
             }
         }
         rep.bounds.push(("duplicate_key_members".into(), maxm.to_string()));
+    }
+    if prop == "C02" {
+        // every \uXXXX code unit, alone (all four option records); surrogate pairs; raw scalars
+        rep.checks.push("C02: all 65,536 \\uXXXX escapes under every option record; surrogate pairs; raw scalars at the length-class boundaries".into());
+        for u in 0u32..=0xFFFF { let t = format!("\"\\u{:04X}\"", u); check_text(prop, &t, rep); }
+        let step = if thorough { 1 } else { 37 };
+        let mut h = 0xD800u32; while h <= 0xDBFF { let mut l = 0xDC00u32 + (h % step); while l <= 0xDFFF { let t = format!("\"\\u{:04x}\\u{:04X}\"", h, l); check_text(prop, &t, rep); l += step; } h += if thorough { 1 } else { 7 }; }
+        let mut c = 0u32; while c <= 0x10FFFF { if let Some(ch) = char::from_u32(c) { if ch != '"' && ch != '\\' && c >= 0x20 { let t = format!("\"{}\"", ch); check_text(prop, &t, rep); } } c += if thorough { 1 } else if c < 0x3000 { 1 } else { 251 }; }
+        rep.bounds.push(("escapes".into(), "65536 x 4 option records".into()));
+    }
+    if prop == "C12" {
+        // the options relax surrogate ESCAPES only: ill-formed UTF-8 in the byte input is still an error
+        rep.checks.push("C12: byte-slice entry point under every option record: ill-formed UTF-8 is never accepted".into());
+        for doc in [&b"[\"a\xffb\"]"[..], b"\"\xc3\"", b"{\"k\xed\xa0\x80\":1}", b"\"\xed\xb0\x80\"", b"[1]\xff", b"\"\xf4\x90\x80\x80\""] {
+            for &o in ALL_OPTS.iter() {
+                let r = Value::parse_slice_with(doc, opts_real(o));
+                rep.eval(true, fnv(doc) ^ (o.trunc as u64) << 1 ^ (o.invalid as u64));
+                if r.is_ok() { rep.violation("lenient options accept exactly the documented relaxations", "bytes-lenient", format!("{:?} opts={:?}", doc, o), "ill-formed UTF-8 accepted by parse_slice_with".into()); }
+            }
+        }
+        for text in ["\"\\uFFFF\"", "\"\\uFDD0\\uFFFE\"", "{\"k\\uffff\":1}"] { check_text(prop, text, rep); }
     }
     if prop == "C03" {
         rep.checks.push("C03: 200000-deep nesting in a 256 KiB stack; no panic on any enumerated input".into());
